@@ -80,22 +80,26 @@ class Field(object):
         return "%ds" % sz
 
     def size(self,psize=0):
-        # if the field belongs to an instance and was unpacked already,
-        # we return the actual byte-length of the resulting struct:
-        try:
-            return len(self.instance[self.name])
-        except Exception:
-            pass
-        # otherwise we return the natural size of the field's type,
+        # we return the natural size of the field's type,
         # which may be infinite if the type contains a VarField...
         try:
             sz =  self.type.size(psize)
         except AttributeError:
             return float("Infinity")
-        else:
+        if sz < float("Infinity"):
             if self.count > 0:
                 sz = sz * self.count
             return sz
+        # ...in which case, if the field belongs to an instance and was
+        # unpacked already, we return the actual byte-length of the
+        # resulting struct(s):
+        try:
+            v = self.instance[self.name]
+            if self.count > 0:
+                return sum((len(x) for x in v),0)
+            return len(v)
+        except Exception:
+            return float("Infinity")
 
     @property
     def source(self):
@@ -145,14 +149,13 @@ class Field(object):
             # but it can be a python raw type in case self is a typedef.
             # Thus, we need to declare a 'sizeof' operator to correctly compute
             # the size of each unpacked blob:
-            if isinstance(blob,(bytes,StructCore)):
+            sz = self.type.size(psize)
+            if sz<float('Infinity'):
+                sizeof = lambda b: sz
+            elif isinstance(blob,(bytes,StructCore)):
                 sizeof = lambda b: len(b)
             else:
-                sz = self.type.size(psize)
-                if sz<float('Infinity'):
-                    sizeof = lambda b: sz
-                else:
-                    sizeof = lambda b: sum((x.size(psize) for x in b),0)
+                sizeof = lambda b: sum((x.size(psize) for x in b),0)
             # now lets unpack the rest of the series:
             sz = sizeof(blob)
             count = self.count
@@ -171,8 +174,16 @@ class Field(object):
 
     def pack(self, value, psize=0):
         if self.count > 0:
-            return b"".join([self.type().pack(v,psize) for v in value])
-        return self.type.pack(value,psize)
+            return b"".join([self._pack1(v,psize) for v in value])
+        return self._pack1(value,psize)
+
+    def _pack1(self, value, psize=0):
+        if isinstance(value,StructCore):
+            # an unpacked instance of the field's type packs itself:
+            return value.pack(None,psize)
+        # otherwise the type is a typedef and value is the value
+        # of its only field:
+        return self.type().pack([value],psize)
 
     def copy(self,obj=None):
         cls = self.__class__
